@@ -272,6 +272,10 @@ def run_case(ctx, ask, rng, kind, op, ts, p, parents, note=""):
             ctx.fail("operator-raises", inp, kids, "offspring", where)
             ctx.failures[-1]["input_class"] = f"{name}:{kids}"
         impl_out = kids
+    elif not isinstance(kids, list) or not all(isinstance(c, C.Solution) for c in kids):
+        ctx.fail("offspring-not-a-list-of-solutions", inp, repr(kids)[:200], "a list of Solution objects", where)
+        impl_out = "err:not-solutions"
+        kids = "err:not-solutions"
     else:
         if before != after:
             ctx.fail("parent-modified", inp, "parents differ after the call", "parents unchanged", where)
